@@ -280,9 +280,24 @@ func isNilConst(v ssa.Value) bool {
 // following e through phis, stores to local allocs (and their loads) to
 // comparisons with nil that control an If.
 func nilEdgesOf(e ssa.Value) (edges []Edge, returned bool, otherUse bool) {
+	es, r, o := nilEdgesOfX(e)
+	for _, x := range es {
+		edges = append(edges, x.Edge)
+	}
+	return edges, r, o
+}
+
+// xedge is a nil edge plus whether the tested value can only be nil there because e was nil
+// (every other value that may reach the test is provably non-nil).
+type xedge struct {
+	Edge
+	exclusive bool
+}
+
+func nilEdgesOfX(e ssa.Value) (edges []xedge, returned bool, otherUse bool) {
 	seen := map[ssa.Value]bool{}
-	var follow func(v ssa.Value)
-	follow = func(v ssa.Value) {
+	var follow func(v ssa.Value, excl bool)
+	follow = func(v ssa.Value, excl bool) {
 		if seen[v] {
 			return
 		}
@@ -307,22 +322,45 @@ func nilEdgesOf(e ssa.Value) (edges []Edge, returned bool, otherUse bool) {
 				for _, rr := range *r.Referrers() {
 					if iff, ok := rr.(*ssa.If); ok {
 						if r.Op == token.NEQ {
-							edges = append(edges, Edge{iff.Block(), 1})
+							edges = append(edges, xedge{Edge{iff.Block(), 1}, excl})
 						} else {
-							edges = append(edges, Edge{iff.Block(), 0})
+							edges = append(edges, xedge{Edge{iff.Block(), 0}, excl})
 						}
 					}
 				}
 			case *ssa.Phi:
-				follow(r)
+				ok := excl
+				for k, op := range r.Edges {
+					if op == v {
+						continue
+					}
+					pred := r.Block().Preds[k]
+					if !nonNilErr(op, pred, len(pred.Instrs), 0) && !nonNilOnEdge(op, pred, r.Block()) {
+						ok = false
+					}
+				}
+				follow(r, ok)
 			case *ssa.Return:
 				returned = true
 			case *ssa.Store:
 				if a, ok := r.Addr.(*ssa.Alloc); ok && r.Val == v {
-					// loads of the alloc: flow-insensitive, restricted to loads reachable
-					// from the store without an intervening store to the same alloc
 					for _, ld := range loadsAfterStore(r, a) {
-						follow(ld)
+						ex := excl
+						if u, isLd := ld.(*ssa.UnOp); isLd {
+							st, uninit := reachingStores(u, a)
+							if uninit || len(st) != 1 || st[0] != r {
+								// other stores may reach this load: they must all be provably non-nil errors
+								for _, o := range st {
+									if o != r && !nonNilErr(o.Val, o.Block(), indexOf(o), 0) && !storeNonNilAt(o, u, a) {
+										ex = false
+									}
+								}
+								if uninit {
+									ex = false
+								}
+							}
+						}
+						follow(ld, ex)
 					}
 				} else if _, ok := r.Addr.(*ssa.FreeVar); ok && r.Val == v {
 					returned = true // closure hands the error to its parent through a captured variable
@@ -330,14 +368,88 @@ func nilEdgesOf(e ssa.Value) (edges []Edge, returned bool, otherUse bool) {
 					otherUse = true
 				}
 			case *ssa.MakeInterface, *ssa.ChangeInterface:
-				follow(r.(ssa.Value))
+				follow(r.(ssa.Value), excl)
 			default:
 				otherUse = true
 			}
 		}
 	}
-	follow(e)
+	follow(e, true)
 	return
+}
+
+// nonNilOnEdge: pred ends in an If that compares op with nil and the edge pred->to is its non-nil edge.
+func nonNilOnEdge(op ssa.Value, pred, to *ssa.BasicBlock) bool {
+	if len(pred.Instrs) == 0 {
+		return false
+	}
+	iff, ok := pred.Instrs[len(pred.Instrs)-1].(*ssa.If)
+	if !ok {
+		return false
+	}
+	bo, ok := iff.Cond.(*ssa.BinOp)
+	if !ok || (bo.Op != token.NEQ && bo.Op != token.EQL) {
+		return false
+	}
+	var other ssa.Value
+	switch {
+	case bo.X == op:
+		other = bo.Y
+	case bo.Y == op:
+		other = bo.X
+	default:
+		return false
+	}
+	if !isNilConst(other) {
+		return false
+	}
+	nn := 0 // successor index on which op is non-nil
+	if bo.Op == token.EQL {
+		nn = 1
+	}
+	// the edge must be the non-nil one, and only that one may lead to `to`
+	return pred.Succs[nn] == to && pred.Succs[1-nn] != to
+}
+
+// storeNonNilAt: the value written by store o can reach load ld only along paths on which a
+// test of that value took its non-nil edge (so at ld it is a non-nil error).
+func storeNonNilAt(o *ssa.Store, ld *ssa.UnOp, a *ssa.Alloc) bool {
+	fn := o.Parent()
+	cuts := NewSet()
+	for _, ref := range *a.Referrers() {
+		if st, ok := ref.(*ssa.Store); ok && st != o && st.Addr == a {
+			cuts.AddI(st)
+		}
+	}
+	found := false
+	for _, l2 := range loadsAfterStore(o, a) {
+		refs := l2.Referrers()
+		if refs == nil {
+			continue
+		}
+		for _, ref := range *refs {
+			if nn := nonNilSucc(ref, l2); nn != nil {
+				// the edge into nn from the If block
+				ib := ref.(ssa.Instruction).Block()
+				// the If lives in the block of the BinOp's referrer; find it
+				for _, rr := range *ref.(*ssa.BinOp).Referrers() {
+					if iff, ok := rr.(*ssa.If); ok {
+						ib = iff.Block()
+					}
+				}
+				for si, sb := range ib.Succs {
+					if sb == nn {
+						cuts.AddE(Edge{ib, si})
+						found = true
+					}
+				}
+			}
+		}
+	}
+	if !found {
+		return false
+	}
+	return len(Reach(fn, []Point{After(o)}, NewSet().AddI(ld), cuts)) == 0
 }
 
 // loadsAfterStore finds loads of alloc a reachable from store st before any other store to a.
@@ -382,15 +494,43 @@ func OkCut(c ssa.CallInstruction) *Set {
 	if len(evs) == 0 {
 		return s // error result never extracted: dropped
 	}
+	cb := c.(ssa.Instruction).Block()
 	for _, e := range evs {
-		edges, returned, other := nilEdgesOf(e)
-		if len(edges) > 0 {
-			s.AddE(edges...)
-		} else if returned && !other {
+		edges, returned, other := nilEdgesOfX(e)
+		n := 0
+		for _, ed := range edges {
+			// the nil test speaks about this call only if every path to the test passed the call, or every
+			// other value that can reach the test is a provably non-nil error (an error variable assigned on
+			// one branch and tested after the join otherwise lets the paths that skipped the call through)
+			if ed.exclusive || cb == ed.From || cb.Dominates(ed.From) {
+				s.AddE(ed.Edge)
+				n++
+			}
+		}
+		if n == 0 && len(edges) == 0 && returned && !other && inTailPosition(c) {
 			s.AddI(c.(ssa.Instruction))
 		}
 	}
 	return s
+}
+
+// inTailPosition: no other call is reachable between the call and the function's returns
+// (`return f()`, `err := f(); return err`), so "the call was executed" and "the function
+// returned what the call returned" coincide.
+func inTailPosition(c ssa.CallInstruction) bool {
+	fn := c.Parent()
+	calls := NewSet()
+	for _, b := range fn.Blocks {
+		for _, in := range b.Instrs {
+			switch in.(type) {
+			case *ssa.Call, *ssa.Go:
+				if in != c.(ssa.Instruction) {
+					calls.AddI(in)
+				}
+			}
+		}
+	}
+	return len(Reach(fn, []Point{After(c.(ssa.Instruction))}, calls, nil)) == 0
 }
 
 // closureSpillEdges handles `func() { ...; err = f() }(); if err != nil {...}`: a
